@@ -149,6 +149,9 @@ class Check:
         self.scratch = Path(tempfile.mkdtemp(prefix="run-%s-" % pid, dir=SCRATCH_ROOT))
         self.sections = {}
         self._replay_n = 0
+        if replay is None:
+            for old in (VERIF / "replays").glob("%s-*.json" % pid):
+                old.unlink()
 
     # ------------------------------------------------------------ utilities
     def rng(self, name=""):
